@@ -2,10 +2,10 @@
 import itertools
 from vlib.runner import Group, run_property
 
-SUM = ["deps.dev/util/semver.compare", "(deps.dev/util/semver.Set).matchVersion"]
+SUM = ["deps.dev/util/semver.compare", "(deps.dev/util/semver.Set).matchVersion", "deps.dev/util/semver.canon$1"]
 NCONS = {0: 24, 4: 24, 1: 24, 2: 4}
 NVERS = {0: 4, 4: 4, 1: 4, 2: 4}
-QUICK = {0: [5, 6, 11, 12], 4: [3, 7, 10, 14], 1: [5, 7, 9, 12], 2: [0, 1]}
+QUICK = {0: [5, 6, 12], 4: [3, 7, 14], 1: [5, 9, 12], 2: [0, 1]}
 
 
 def run(tier):
@@ -17,7 +17,7 @@ def run(tier):
         tvs = [0, 1] if tier == "quick" else list(range(NVERS[sys]))
         for ta, tb in itertools.product(ts, repeat=2):
             for tv in tvs:
-                jobs.append(dict(base, harness="VerifC09SetAlgebra", params={"sys": sys, "ta": ta, "tb": tb, "tv": tv}))
+                jobs.append(dict(base, harness="VerifC09SetAlgebra", params={"sys": sys, "ta": ta, "tb": tb, "tv": tv, "order": 0 if tier == "quick" else 1}))
     return run_property("C09", tier, [Group("semver", jobs)],
                         required_covers=["operands and version parsed", "union computed", "intersection computed"],
                         assumptions=["operands are instances of the constraint templates in harness/semver/c09.go with symbolic digits and letters"],
